@@ -78,6 +78,12 @@ class FaultProg(programs.ProgBase):
         super().__init__(*args, **kwargs)
         fault_point('__init__', 'after')
 
+    def save_instance_state(self, out_state, save_context):
+        pending, self._fail_save = getattr(self, '_fail_save', None), None
+        if pending is not None:
+            raise pending
+        super().save_instance_state(out_state, save_context)
+
     def set_status(self, status):
         # an overridden public helper that the pause / play hooks (and the steps) call
         fault_point('set_status', 'in', self)
@@ -105,7 +111,16 @@ class FaultListener(lifecycle.RecListener):
 def _lwrap(name):
     def method(self, *args, **kwargs):
         getattr(super(FaultListener, self), name)(*args, **kwargs)
-        fault_point('listener.' + name, 'in')
+        try:
+            fault_point('listener.' + name, 'in')
+        except ProgError as exc:
+            if COUNTS.get('listener.%s/in' % name, 0) % 3 == 0:
+                # the listener's fault happens inside a call it makes back into the process (it tries to checkpoint the process
+                # and the process's own save_instance_state override fails before reaching the base class)
+                proc = args[0]
+                proc._fail_save = exc
+                plumpy.Bundle(proc)
+            raise
 
     method.__name__ = name
     return method
